@@ -28,9 +28,63 @@ func (d *Data) loadMetadata(ctx storage.VersionedCtx, meta Schema) (val []byte, 
 	return byteVal, nil
 }
 
+// loads the cached metadata (documents and compiled JSON schema) from the given version.
+// Caller must hold the metadata lock (or be the only user, as in Initialize).
+func (d *Data) loadHeadMetadata(ctx storage.VersionedCtx) {
+	d.metadata = make(map[Schema][]byte, 3)
+	d.compiledSchema = nil
+	for _, meta := range []Schema{JSONSchema, NeuSchema, NeuSchemaBatch} {
+		value, err := d.loadMetadata(ctx, meta)
+		if err != nil {
+			dvid.Criticalf("Can't load %s for neuronjson %q: %v\n", meta, d.DataName(), err)
+			continue
+		}
+		if value != nil {
+			d.metadata[meta] = value
+		}
+	}
+	if value, found := d.metadata[JSONSchema]; found && len(value) != 0 {
+		sch, err := jsonschema.CompileString("schema.json", string(value))
+		if err != nil {
+			dvid.Criticalf("Can't compile JSON schema for neuronjson %q: %v\n", d.DataName(), err)
+		} else {
+			d.compiledSchema = sch
+		}
+	}
+	d.metadataV = ctx.VersionID()
+	d.metadataLoaded = true
+}
+
+// makes the cached metadata that of the master head ctx refers to.  A new version made
+// from the version the cache holds starts with identical metadata, so the cache follows
+// it; otherwise (the master head moved to the child of a merge node) it is reloaded.
+func (d *Data) syncHeadMetadata(ctx storage.VersionedCtx) {
+	v := ctx.VersionID()
+	d.metadataMu.RLock()
+	current := d.metadataLoaded && d.metadataV == v
+	d.metadataMu.RUnlock()
+	if current {
+		return
+	}
+	d.metadataMu.Lock()
+	defer d.metadataMu.Unlock()
+	if d.metadataLoaded && d.metadataV == v {
+		return
+	}
+	if d.metadataLoaded {
+		parents, err := datastore.GetParentsByVersion(v)
+		if err == nil && len(parents) == 1 && parents[0] == d.metadataV {
+			d.metadataV = v
+			return
+		}
+	}
+	d.loadHeadMetadata(ctx)
+}
+
 // gets metadata from either in-memory db if HEAD or from store
 func (d *Data) getMetadata(ctx storage.VersionedCtx, meta Schema) (val []byte, err error) {
 	if ctx.Head() {
+		d.syncHeadMetadata(ctx)
 		d.metadataMu.RLock()
 		defer d.metadataMu.RUnlock()
 		if val, found := d.metadata[meta]; found {
@@ -45,6 +99,7 @@ func (d *Data) getMetadata(ctx storage.VersionedCtx, meta Schema) (val []byte, e
 // get fully compiled JSON schema for use -- TODO
 func (d *Data) getJSONSchema(ctx storage.VersionedCtx) (sch *jsonschema.Schema, err error) {
 	if ctx.Head() {
+		d.syncHeadMetadata(ctx)
 		d.metadataMu.RLock()
 		sch = d.compiledSchema
 		d.metadataMu.RUnlock()
@@ -99,6 +154,7 @@ func (d *Data) putMetadata(ctx storage.VersionedCtx, val []byte, meta Schema) (e
 
 	// If we could persist metadata, add it to in-memory db if head.
 	if ctx.Head() {
+		d.syncHeadMetadata(ctx)
 		d.metadataMu.Lock()
 		d.metadata[meta] = val
 		if meta == JSONSchema {
@@ -115,6 +171,7 @@ func (d *Data) putMetadata(ctx storage.VersionedCtx, val []byte, meta Schema) (e
 
 func (d *Data) metadataExists(ctx storage.VersionedCtx, meta Schema) (exists bool, err error) {
 	if ctx.Head() {
+		d.syncHeadMetadata(ctx)
 		d.metadataMu.RLock()
 		defer d.metadataMu.RUnlock()
 		_, found := d.metadata[meta]
@@ -144,6 +201,7 @@ func (d *Data) deleteMetadata(ctx storage.VersionedCtx, meta Schema) (err error)
 		return
 	}
 	if ctx.Head() {
+		d.syncHeadMetadata(ctx)
 		d.metadataMu.Lock()
 		defer d.metadataMu.Unlock()
 		delete(d.metadata, meta)
